@@ -95,7 +95,6 @@ package scheduler
 //@   props C04 C05
 //@   safety
 //@   requires nodes_wf(g)
-//@   modifies *
 //@   ensures [C04 is_running] r <==> any_running(g)
 //@   loop 0 invariant forall i int :: 0 <= i && i <= idx ==> status_at(g, i) != NodeStatusRunning
 
@@ -121,7 +120,6 @@ package scheduler
 //@   props C04
 //@   safety
 //@   requires nodes_wf(g)
-//@   modifies *
 //@   ensures [C04 is_succeed] r <==> all_done_ok(g)
 //@   loop 0 invariant forall i int :: 0 <= i && i <= idx ==>
 //@        (status_at(g, i) == NodeStatusSuccess || status_at(g, i) == NodeStatusSkipped)
@@ -130,7 +128,6 @@ package scheduler
 //@   props C02 C04
 //@   safety
 //@   requires nodes_wf(g)
-//@   modifies *
 //@   ensures [C02 is_finished] r <==> all_finished(g)
 //@   loop 0 invariant forall i int :: 0 <= i && i <= idx ==>
 //@        (status_at(g, i) != NodeStatusRunning && status_at(g, i) != NodeStatusNone)
@@ -139,7 +136,6 @@ package scheduler
 //@   props C15
 //@   safety
 //@   requires nodes_wf(g)
-//@   modifies *
 //@   ensures [C15 counts_running] r == count_running(g, len(g.nodes))
 //@   loop 0 invariant count == count_running(g, idx + 1)
 
